@@ -6,6 +6,6 @@ package updog
 // intercepts these functions by name (bodies never run). The native implementations are in
 // zz_verif_hooks.go (tag verif).
 
-func verifCrashRecord(path string)                   {}
-func verifCommitCount(path string) int               { return 0 }
+func verifCrashRecord(path string)                     {}
+func verifCommitCount(path string) int                 { return 0 }
 func verifRestoreCommit(src string, i int, dst string) {}
